@@ -10,7 +10,10 @@ use crate::{
 };
 
 use super::AnalyzeContext;
-use emmylua_parser::{LuaAst, LuaAstNode, LuaChunk, LuaFuncStat, LuaSyntaxKind, LuaVarExpr};
+use emmylua_parser::{
+    LuaAst, LuaAstNode, LuaAstToken, LuaChunk, LuaForRangeStat, LuaForStat, LuaFuncStat,
+    LuaSyntaxKind, LuaVarExpr,
+};
 use rowan::{TextRange, TextSize, WalkEvent};
 
 use crate::{
@@ -47,6 +50,14 @@ fn walk_node_enter(analyzer: &mut DeclAnalyzer, node: LuaAst) {
         }
         LuaAst::LuaBlock(block) => {
             analyzer.create_scope(block.get_range(), LuaScopeKind::Normal);
+            // Loop variables are visible in the loop body only, never in the header
+            // expressions (`for i = i, i + 2 do`, `for k in f(function() return k end) do`),
+            // so they are declared in the scope of the body block.
+            if let Some(stat) = block.get_parent::<LuaForStat>() {
+                stats::analyze_for_stat(analyzer, stat);
+            } else if let Some(stat) = block.get_parent::<LuaForRangeStat>() {
+                stats::analyze_for_range_stat(analyzer, stat);
+            }
         }
         LuaAst::LuaLocalStat(stat) => {
             analyzer.create_scope(stat.get_range(), LuaScopeKind::LocalOrAssignStat);
@@ -58,11 +69,27 @@ fn walk_node_enter(analyzer: &mut DeclAnalyzer, node: LuaAst) {
         }
         LuaAst::LuaForStat(stat) => {
             analyzer.create_scope(stat.get_range(), LuaScopeKind::Normal);
-            stats::analyze_for_stat(analyzer, stat);
+            if stat.get_block().is_none() {
+                // no body block (empty or incomplete loop): keep the declaration, but in a
+                // scope of its own so that the header expressions cannot see it
+                if let Some(var) = stat.get_var_name() {
+                    analyzer.create_scope(var.get_range(), LuaScopeKind::Normal);
+                    stats::analyze_for_stat(analyzer, stat);
+                    analyzer.pop_scope();
+                }
+            }
         }
         LuaAst::LuaForRangeStat(stat) => {
             analyzer.create_scope(stat.get_range(), LuaScopeKind::ForRange);
-            stats::analyze_for_range_stat(analyzer, stat);
+            if stat.get_block().is_none() {
+                let vars = stat.get_var_name_list().collect::<Vec<_>>();
+                if let (Some(first), Some(last)) = (vars.first(), vars.last()) {
+                    let range = TextRange::new(first.get_range().start(), last.get_range().end());
+                    analyzer.create_scope(range, LuaScopeKind::Normal);
+                    stats::analyze_for_range_stat(analyzer, stat);
+                    analyzer.pop_scope();
+                }
+            }
         }
         LuaAst::LuaFuncStat(stat) => {
             if is_method_func_stat(&stat).unwrap_or(false) {
